@@ -241,10 +241,10 @@ class Tensor:
             if d['level'] >= 2 or config is not None:
                 dtype = d['config'].default_dtype
                 if hasattr(d['data'], 'dtype'):
-                    if 'complex128' in str(d['data'].dtype):
-                        dtype = 'complex128'
-                    if 'float64' in str(d['data'].dtype):
-                        dtype = 'float64'
+                    for name in ('complex128', 'complex64', 'float64', 'float32', 'bool'):
+                        if name in str(d['data'].dtype):
+                            dtype = name
+                            break
                 d['data'] = d['config'].backend.to_tensor(d['data'], dtype=dtype, device=d['config'].default_device)
 
             return cls(**d)
